@@ -762,6 +762,44 @@ def spec_search(ctx, shim, model, r, nfonts):
                          "and no crash")
 
 
+def promote_run(ctx, shim, model, dis, limit=300):
+    """a `morx run` request on which crate and operational model disagree is a candidate failing input of the property: it is
+    judged as the `morx-spec` search judges its own requests — the crate's glyphs against the AAT reference interpreter
+    (Spec/Aat.lean) wherever that is defined.  Nothing is assumed about why the two disagreed."""
+    lines = sorted({d["request"] for d in dis if d.get("request", "").startswith("morx run ")}, key=len)[:limit]
+    if not lines:
+        ctx.note_search("promoted-morx-run", 0, 0, rule="no morx-run / morx-run-feat disagreement to promote in this run")
+        return
+    a = vlib.run_lines(shim, lines, timeout=120)
+    b = vlib.run_lines(model, [ln.replace("morx run", "morx spec", 1) for ln in lines], timeout=120)
+    total = nontriv = bad = 0
+    for ln, x, y in zip(lines, a, b):
+        total += 1
+        if y == "undef" or not y.startswith("ok"):
+            continue
+        nontriv += 1
+        t = ln.split(); i = t.index("I")
+        if not x.startswith("ok"):
+            bad += 1
+            if bad <= 2:
+                ctx.violation(f"promoted morx-run disagreement: the crate panics at {panic_site(x)} where the AAT reference interpreter gives {y}",
+                              {"stage": "search", "stream": "promoted-morx-run", "request": ln, "input": t[i + 1:], "expected": y, "observed": x})
+            continue
+        try:
+            got = gids_of(x.split()[3]); exp = gids_of(y.split()[1])
+        except Exception:
+            continue
+        if got != exp:
+            bad += 1
+            if bad <= 2:
+                ctx.violation("promoted morx-run disagreement: glyphs differ from the AAT reference interpreter",
+                              {"stage": "search", "stream": "promoted-morx-run", "request": ln, "input": t[i + 1:],
+                               "expected": exp, "observed": got})
+    ctx.note_search("promoted-morx-run", total, nontriv, deviations=bad,
+                    rule="the morx-run / morx-run-feat requests on which crate and model disagree (shortest first), judged by the AAT reference "
+                         "interpreter; non-trivial = inside the reference's domain")
+
+
 def seed_search(ctx, shim, model):
     """corpus/C17/seeds.json: requests that once crashed the crate; they must pass for good."""
     import json
@@ -2048,15 +2086,16 @@ def run(ctx):
     ctx.correspond("morx-rearr-random", lines=rearr_random(ctx.rng("rearr"), ctx.budget(4000, 200000)),
                    classify=classify_rearr, canon=canon)
     # 2. whole tables through hb_aat_layout_substitute
-    ctx.correspond("morx-run", lines=run_lines(ctx.rng("run"), ctx.budget(3000, 150000)), classify=classify_run,
-                   canon=canon, timeout=300)
-    ctx.correspond("morx-run-feat", lines=run_lines(ctx.rng("runfeat"), ctx.budget(1200, 60000), kinds=(0, 1, 2, 4),
-                   with_feat=True), classify=classify_run, canon=canon, timeout=300)
+    dis_run = ctx.correspond("morx-run", lines=run_lines(ctx.rng("run"), ctx.budget(3000, 150000)), classify=classify_run,
+                             canon=canon, timeout=300) or []
+    dis_feat = ctx.correspond("morx-run-feat", lines=run_lines(ctx.rng("runfeat"), ctx.budget(1200, 60000), kinds=(0, 1, 2, 4),
+                              with_feat=True), classify=classify_run, canon=canon, timeout=300) or []
     xl = extreme_run_lines(shim, ctx.rng("runfeat-extreme"), ctx.budget(2400, 80000))
-    ctx.correspond("morx-run-feat-extreme", lines=xl, classify=classify_extreme, canon=canon, timeout=300)
+    dis_fx = ctx.correspond("morx-run-feat-extreme", lines=xl, classify=classify_extreme, canon=canon, timeout=300) or []
     # 2b. ligature subtables whose component stack grows past the 64 positions the ring remembers
     lsc = longstack_cases(ctx.rng("longstack"), ctx.budget(60, 2500))
-    ctx.correspond("morx-run-longstack", lines=[c[0] for c in lsc], classify=classify_longstack, canon=canon, timeout=300)
+    dis_l = ctx.correspond("morx-run-longstack", lines=[c[0] for c in lsc], classify=classify_longstack, canon=canon, timeout=300) or []
+    promote_run(ctx, shim, model, list(dis_run) + list(dis_feat) + list(dis_fx) + list(dis_l))
     # 3. chain-flag compilation (add_feature + compile + compile_flags)
     dis_c = ctx.correspond("morx-compile", lines=compile_lines(ctx.rng("compile"), ctx.budget(1500, 80000)),
                            classify=classify_compile, canon=canon)
